@@ -64,7 +64,23 @@ fn gen_triple(rng: &mut Rng) -> (u128, u128, u128) {
     }
 }
 
+/// `./check C02 --replay FILE`: re-run the recorded pure compute_swap case with the property's monitor
+fn replay(path: &str, scratch: &str) -> i32 {
+    let v: serde_json::Value = match std::fs::read_to_string(path).ok().and_then(|t| serde_json::from_str(&t).ok()) { Some(v) => v, None => { eprintln!("cannot read {path}"); return 2; } };
+    let fi = v.get("failing_input").cloned().unwrap_or(v.clone());
+    let g = |k: &str| -> Option<u128> { fi.get(k)?.as_str()?.parse().ok() };
+    let fees = fi.get("fees_protocol_swap_burn").and_then(|f| Some((f[0].as_str()?.parse::<u128>().ok()?, f[1].as_str()?.parse::<u128>().ok()?, f[2].as_str()?.parse::<u128>().ok()?)));
+    let (op, ask, x, f) = match (g("offer_pool").or_else(|| fi["reserves"][0].as_str()?.parse().ok()), g("ask_pool").or_else(|| fi["reserves"][1].as_str()?.parse().ok()), g("offer"), fees) {
+        (Some(a), Some(b), Some(c), Some(d)) => (a, b, c, d), _ => { eprintln!("no compute_swap case in {path}"); return 2; } };
+    let mut out = Out::new(scratch);
+    let r = impl_swap(op, ask, x, f);
+    monitor(&mut out, op, ask, x, f, &r, &fi);
+    match &r { Outcome::Ok(s) => println!("compute_swap({op}, {ask}, {x}) = return {} spread {} fees {}/{}/{}", s.ret, s.spread, s.sf, s.pf, s.bf), Outcome::Err(_) => println!("compute_swap rejected"), Outcome::Panic(m) => println!("compute_swap aborted: {m}") }
+    if out.monitor_failures.is_empty() { println!("property C02 holds on this input"); 0 } else { for f in &out.monitor_failures { println!("FAILS: {}", f["what"]); } 1 }
+}
+
 pub fn run(args: &Args) {
+    if let Some(f) = &args.replay { std::process::exit(replay(f, &format!("{}/scratch", args.out))); }
     let mut out = Out::new(&args.out);
     out.rule = "inputs (offer_reserve, ask_reserve, offer, fee triple) drawn from the magnitude buckets of DESIGN 2.3 plus corner shapes; \
                 non-trivial = the implementation returned Ok with gross >= 1 and at least one floor division in gross or a fee left a non-zero remainder; \
